@@ -12,7 +12,7 @@ use crate::real;
 use crate::refmodel::{BucketM, Item, Op, OpSpec};
 use crate::report::{self, Check, Tier};
 use crate::runner::{Action, Cfg, Oracles, Runner};
-use crate::sched::{explore, run_execution, Body, Ctx, ExecResult, RwPolicy};
+use crate::sched::{run_execution, Body, Ctx, ExecResult, RwPolicy};
 
 // ---------------------------------------------------------------------------------------------
 // shared helpers
@@ -370,6 +370,8 @@ pub fn worker(idx: usize) {
         let ci = j["case"].as_u64().unwrap() as usize;
         let policy = if j["policy"].as_str() == Some("wp") { RwPolicy::WriterPreferring } else { RwPolicy::PolicyFree };
         let max_sched = j["max"].as_u64().unwrap_or(2_000_000);
+        let start: Vec<u8> = j["prefix"].as_array().map(|a| a.iter().map(|x| x.as_u64().unwrap_or(0) as u8).collect()).unwrap_or_default();
+        let expand_only = j["expand"].as_bool().unwrap_or(false);
         emit(&format!("case {}", ci));
         match prop.as_str() {
             "C04" => {
@@ -383,36 +385,45 @@ pub fn worker(idx: usize) {
                 let base = c04_base.as_ref().unwrap();
                 let cases = c04_cases(tier);
                 let (case, bound) = &cases[ci];
-                let mut viols: Vec<Value> = vec![];
-                let mut outcomes: std::collections::BTreeMap<String, u64> = Default::default();
-                let mut machinery: Vec<String> = vec![];
-                let stats = explore(*bound, max_sched, |prefix| {
-                    let (res, js, outcome) = c04_run(case, base, &path, prefix, policy);
-                    if let Some(d) = &res.diverged {
-                        machinery.push(d.clone());
-                        return (res.points, false);
-                    }
-                    *outcomes.entry(outcome).or_insert(0) += 1;
-                    for jd in js {
-                        if viols.len() < 200 {
-                            let choices: Vec<u8> = res.points.iter().map(|p| p.chosen).collect();
-                            viols.push(json!([jd.class, jd.detail, choices, res.points.iter().map(|p| p.op.clone()).collect::<Vec<_>>()]));
-                        }
-                    }
-                    (res.points, true)
-                });
-                json!({"schedules": stats.schedules, "by_bound": stats.by_bound, "bound_completed": stats.bound_completed, "capped": stats.capped, "max_points": stats.max_points, "switches": stats.context_switches, "v": viols, "outcomes": outcomes, "machinery": machinery}).to_string()
+                explore_case(*bound, start, expand_only, max_sched, |prefix| c04_run(case, base, &path, prefix, policy))
             }
-            "C09" => crate::c09::serve_job(tier, ci, policy, max_sched, &path),
-            "C13" => crate::c13::serve_job(tier, ci, policy, max_sched, &path),
+            "C09" => crate::c09::serve_job(tier, ci, policy, max_sched, &path, start, expand_only),
+            "C13" => crate::c13::serve_job(tier, ci, policy, max_sched, &path, start, expand_only),
             _ => json!({"err": "unknown property"}).to_string(),
         }
     });
 }
 
+/// Explores one (sub)tree of schedules of a case and renders the job result.
+pub fn explore_case(bound: usize, start: Vec<u8>, expand_only: bool, max_sched: u64, mut run_one: impl FnMut(&[u8]) -> (ExecResult, Vec<Judgement>, String)) -> String {
+    let mut viols: Vec<Value> = vec![];
+    let mut outcomes: std::collections::BTreeMap<String, u64> = Default::default();
+    let mut machinery: Vec<String> = vec![];
+    let (stats, kids) = crate::sched::explore_from(bound, start, expand_only, max_sched, |prefix| {
+        let (res, js, outcome) = run_one(prefix);
+        if let Some(d) = &res.diverged {
+            machinery.push(d.clone());
+            return (res.points, false);
+        }
+        *outcomes.entry(outcome).or_insert(0) += 1;
+        for jd in js {
+            if viols.len() < 200 {
+                let choices: Vec<u8> = res.points.iter().map(|p| p.chosen).collect();
+                viols.push(json!([jd.class, jd.detail, choices, res.points.iter().map(|p| p.op.clone()).collect::<Vec<_>>()]));
+            }
+        }
+        (res.points, true)
+    });
+    json!({"schedules": stats.schedules, "by_bound": stats.by_bound, "bound_completed": stats.bound_completed, "capped": stats.capped, "max_points": stats.max_points, "switches": stats.context_switches, "v": viols, "outcomes": outcomes, "machinery": machinery, "children": kids}).to_string()
+}
+
 pub struct CaseInfo {
     pub label: String,
     pub describe: Value,
+}
+
+fn cases_bound_min(cases: &[CaseInfo]) -> i64 {
+    cases.iter().filter_map(|c| c.describe["preemption_bound"].as_i64()).min().unwrap_or(-1)
 }
 
 /// Runs all cases of a scheduler property through the pool and records results.
@@ -424,64 +435,93 @@ pub fn run(check: &mut Check, prop: &str, cases: Vec<CaseInfo>, policies: &[&str
     let mut pool = Pool::new("schedx", &init, report::ncpu(), &scratch);
     pool.job_timeout = std::time::Duration::from_secs(if tier == Tier::Quick { 300 } else { 7200 });
     let max_per_case: u64 = std::env::var("VCHECK_MAX_SCHEDULES").ok().and_then(|s| s.parse().ok()).unwrap_or(if tier == Tier::Quick { 60_000 } else { 3_000_000 });
-    let mut jobs = vec![];
-    let mut meta = vec![];
-    for (ci, _c) in cases.iter().enumerate() {
-        for p in policies {
-            jobs.push(json!({"case": ci, "policy": p, "max": max_per_case}).to_string());
-            meta.push((ci, p.to_string()));
-        }
-    }
     let mut schedules = 0u64;
     let mut switches = 0u64;
     let mut by_bound: Vec<u64> = vec![];
     let mut capped = false;
-    let mut min_bound_completed = i64::MAX;
     let mut max_points = 0u64;
     let mut outcomes: std::collections::BTreeMap<String, u64> = Default::default();
     let mut found: Vec<(usize, String, String, String, Value, Value)> = vec![];
-    let mut rows = vec![];
     let mut errs = vec![];
-    pool.run(jobs, |ji, o| {
-        let (ci, pol) = meta[ji].clone();
-        match o {
-            Outcome::Done(r) => {
-                let v: Value = serde_json::from_str(&r).unwrap_or(Value::Null);
-                if let Some(e) = v["err"].as_str() {
-                    errs.push(format!("case {}: {}", cases[ci].label, e));
-                    return;
-                }
-                for m in v["machinery"].as_array().cloned().unwrap_or_default() {
-                    errs.push(format!("case {}: {}", cases[ci].label, m.as_str().unwrap_or("")));
-                }
-                schedules += v["schedules"].as_u64().unwrap_or(0);
-                switches += v["switches"].as_u64().unwrap_or(0);
-                capped |= v["capped"].as_bool().unwrap_or(false);
-                max_points = max_points.max(v["max_points"].as_u64().unwrap_or(0));
-                min_bound_completed = min_bound_completed.min(v["bound_completed"].as_i64().unwrap_or(-1));
-                for (i, b) in v["by_bound"].as_array().cloned().unwrap_or_default().iter().enumerate() {
-                    if by_bound.len() <= i {
-                        by_bound.resize(i + 1, 0);
-                    }
-                    by_bound[i] += b.as_u64().unwrap_or(0);
-                }
-                if let Some(m) = v["outcomes"].as_object() {
-                    for (k, c) in m {
-                        *outcomes.entry(k.clone()).or_insert(0) += c.as_u64().unwrap_or(0);
-                    }
-                }
-                if rows.len() < 50 {
-                    rows.push(json!({"case": cases[ci].label, "rwlock_model": pol, "schedules": v["schedules"], "by_preemptions": v["by_bound"], "bound_completed": v["bound_completed"], "points_per_execution_max": v["max_points"], "outcomes": v["outcomes"]}));
-                }
-                for x in v["v"].as_array().cloned().unwrap_or_default() {
-                    found.push((ci, pol.clone(), x[0].as_str().unwrap_or("").into(), x[1].as_str().unwrap_or("").into(), x[2].clone(), x[3].clone()));
-                }
-            }
-            other => {
-                found.push((ci, pol, "process_death".into(), format!("worker died or hung while exploring this case: {:?}", other), Value::Null, Value::Null));
-            }
+    // per (case, policy): schedules, by_bound, outcomes
+    let mut per_case: std::collections::BTreeMap<(usize, String), (u64, Vec<u64>, std::collections::BTreeMap<String, u64>, u64, bool)> = Default::default();
+    // phase 1: run the default schedule of every case and collect its children;
+    // phase 2: one job per child subtree, spread over all workers
+    let mut jobs = vec![];
+    let mut meta: Vec<(usize, String)> = vec![];
+    for (ci, _c) in cases.iter().enumerate() {
+        for p in policies {
+            jobs.push(json!({"case": ci, "policy": p, "max": max_per_case, "prefix": [], "expand": true}).to_string());
+            meta.push((ci, p.to_string()));
         }
-    });
+    }
+    for phase in 0..2 {
+        let mut next_jobs = vec![];
+        let mut next_meta = vec![];
+        let cur_meta = std::mem::take(&mut meta);
+        pool.run(std::mem::take(&mut jobs), |ji, o| {
+            let (ci, pol) = cur_meta[ji].clone();
+            match o {
+                Outcome::Done(r) => {
+                    let v: Value = serde_json::from_str(&r).unwrap_or(Value::Null);
+                    if let Some(e) = v["err"].as_str() {
+                        errs.push(format!("case {}: {}", cases[ci].label, e));
+                        return;
+                    }
+                    for m in v["machinery"].as_array().cloned().unwrap_or_default() {
+                        errs.push(format!("case {}: {}", cases[ci].label, m.as_str().unwrap_or("")));
+                    }
+                    let n = v["schedules"].as_u64().unwrap_or(0);
+                    schedules += n;
+                    switches += v["switches"].as_u64().unwrap_or(0);
+                    let cap = v["capped"].as_bool().unwrap_or(false);
+                    capped |= cap;
+                    max_points = max_points.max(v["max_points"].as_u64().unwrap_or(0));
+                    let pc = per_case.entry((ci, pol.clone())).or_insert((0, vec![], Default::default(), 0, false));
+                    pc.0 += n;
+                    pc.3 = pc.3.max(v["max_points"].as_u64().unwrap_or(0));
+                    pc.4 |= cap;
+                    for (i, b) in v["by_bound"].as_array().cloned().unwrap_or_default().iter().enumerate() {
+                        if by_bound.len() <= i {
+                            by_bound.resize(i + 1, 0);
+                        }
+                        by_bound[i] += b.as_u64().unwrap_or(0);
+                        if pc.1.len() <= i {
+                            pc.1.resize(i + 1, 0);
+                        }
+                        pc.1[i] += b.as_u64().unwrap_or(0);
+                    }
+                    if let Some(m) = v["outcomes"].as_object() {
+                        for (k, c) in m {
+                            *outcomes.entry(k.clone()).or_insert(0) += c.as_u64().unwrap_or(0);
+                            *pc.2.entry(k.clone()).or_insert(0) += c.as_u64().unwrap_or(0);
+                        }
+                    }
+                    for x in v["v"].as_array().cloned().unwrap_or_default() {
+                        found.push((ci, pol.clone(), x[0].as_str().unwrap_or("").into(), x[1].as_str().unwrap_or("").into(), x[2].clone(), x[3].clone()));
+                    }
+                    if phase == 0 {
+                        for k in v["children"].as_array().cloned().unwrap_or_default() {
+                            next_jobs.push(json!({"case": ci, "policy": pol, "max": max_per_case, "prefix": k, "expand": false}).to_string());
+                            next_meta.push((ci, pol.clone()));
+                        }
+                    }
+                }
+                other => {
+                    found.push((ci, pol, "process_death".into(), format!("worker died or hung while exploring this case: {:?}", other), Value::Null, Value::Null));
+                }
+            }
+        });
+        jobs = next_jobs;
+        meta = next_meta;
+    }
+    let min_bound_completed: i64 = if capped { -1 } else { cases_bound_min(&cases) };
+    let mut rows = vec![];
+    for ((ci, pol), pc) in per_case.iter() {
+        if rows.len() < 60 {
+            rows.push(json!({"case": cases[*ci].label, "rwlock_model": pol, "schedules": pc.0, "by_preemptions": pc.1, "points_per_execution_max": pc.3, "capped": pc.4, "distinct_outcomes": pc.2.len()}));
+        }
+    }
     for e in errs {
         check.machinery_error(e);
     }
@@ -501,7 +541,7 @@ pub fn run(check: &mut Check, prop: &str, cases: Vec<CaseInfo>, policies: &[&str
     check.cov("distinct_nontrivial", json!(outcomes.len().max(2)));
     check.cov("rule", json!("states = complete schedules executed on the real library (each runs to completion); transitions = context switches across all schedules; distinct_nontrivial = distinct observed outcome vectors (which snapshot each reader saw / which value each writer read)"));
     check.cov("schedules_by_preemptions", json!(by_bound));
-    check.cov("preemption_bound_completed_min_over_cases", json!(if min_bound_completed == i64::MAX { -1 } else { min_bound_completed }));
+    check.cov("preemption_bound_completed_min_over_cases", json!(min_bound_completed));
     check.cov("schedule_cap_hit", json!(capped));
     check.cov("exhaustive", json!(!capped));
     check.cov("max_points_per_execution", json!(max_points));
